@@ -93,18 +93,18 @@ class Result(object):
         self.per_shard.update(other.per_shard)
 
 
-def explore(modname, factory, shards, nproc=None, chunk=300, budget_s=600,
+def explore(modname, shards, nproc=None, chunk=300, budget_s=600,
             max_violations=3, progress=None):
-    """Explore every shard (list of (key, params)) of one harness family
-    completely.  Returns Result."""
+    """Explore every shard (list of (factory, key, params)) of one harness
+    module completely.  Returns Result."""
     nproc = nproc or min(16, os.cpu_count() or 1)
     verif_dir = os.path.dirname(os.path.dirname(os.path.abspath(__file__)))
     res = Result()
     t0 = time.time()
     deadline = t0 + budget_s
-    queue = [(modname, factory, key, params, []) for key, params in shards]
+    queue = [(modname, factory, key, params, []) for factory, key, params in shards]
     queue.reverse()
-    for key, _ in shards:
+    for _, key, _ in shards:
         res.per_shard[key] = 0
     ctx = mp.get_context("spawn")
     small = max(20, chunk // 10)
